@@ -630,3 +630,65 @@ Proof.
   - apply Forall_rev. assumption.
   - intro E. apply Hne. apply (f_equal (@rev sv)) in E. rewrite rev_involutive in E. exact E.
 Qed.
+
+(* ------------------------------------------------------------ getitem, stated against the
+   declarative definition of Python slicing *)
+Lemma getitem_of_indices a it idx : getitem_indices (wd a) it = Some idx ->
+  exists r, getitem a it = Some r /\ wd r = Z.of_nat (length idx) /\ inrange (val r) (wd r) /\
+    forall j, 0 <= j < wd r -> Z.testbit (val r) j = Z.testbit (val a) (nth (Z.to_nat j) idx 0).
+Proof.
+  intros H. destruct (getitem a it) as [r|] eqn:E.
+  - destruct (getitem_spec a it r E) as [idx' [H1 H2]]. rewrite H in H1. inversion H1; subst idx'.
+    exists r. split; [reflexivity|exact H2].
+  - unfold getitem in E. rewrite H in E. discriminate.
+Qed.
+
+Lemma getitem_slice_python a s e st idx : 0 <= wd a -> is_slice_of (wd a) s e st idx ->
+  (idx = [] -> getitem a (ISlice s e st) = None) /\
+  (idx <> [] -> exists r, getitem a (ISlice s e st) = Some r /\
+      wd r = Z.of_nat (length idx) /\ inrange (val r) (wd r) /\
+      forall j, 0 <= j < wd r -> Z.testbit (val r) j = Z.testbit (val a) (nth (Z.to_nat j) idx 0)).
+Proof.
+  intros Hw H. apply slice_indices_complete in H; [|assumption]. split.
+  - intros ->. unfold getitem, getitem_indices. rewrite H. reflexivity.
+  - intros Hne. apply getitem_of_indices. apply getitem_indices_slice; assumption.
+Qed.
+
+(* w[i] for a Python int i: bit i, or bit len(w)+i for negative i; IndexError outside *)
+Lemma getitem_int_spec a i : wf a ->
+  getitem a (IInt i) =
+  if (- wd a <=? i) && (i <? wd a)
+  then Some (b2z (Z.testbit (val a) (if i <? 0 then i + wd a else i)), 1)
+  else None.
+Proof.
+  intros Ha. pose proof Ha as [Hw Hr].
+  destruct ((- wd a <=? i) && (i <? wd a)) eqn:E.
+  - destruct (i <? 0) eqn:E0.
+    + unfold getitem, getitem_indices. rewrite index_int_neg by lia.
+      rewrite prim_select. cbn [length Z.of_nat]. f_equal. f_equal.
+      rewrite select_spec_cons. change (select_spec (val a) []) with 0.
+      rewrite <- b2z_Zb2z. change (2 ^ Z.pos 1) with 2.
+      pose proof (b2z_range (Z.testbit (val a) (i + wd a))). rewrite Z.mod_small; lia.
+    + pose proof (getitem_bit a i Ha ltac:(lia)) as H. unfold getitem_d in H.
+      destruct (getitem a (IInt i)) as [r|] eqn:E2.
+      * rewrite H. reflexivity.
+      * unfold getitem, getitem_indices in E2. rewrite index_int_nonneg in E2 by lia. discriminate.
+  - unfold getitem, getitem_indices. rewrite index_int_none by lia. reflexivity.
+Qed.
+
+(* w[::-1] reverses the bits *)
+Lemma getitem_reverse a : wf a ->
+  exists r, getitem a (ISlice None None (Some (-1))) = Some r /\ wd r = wd a /\
+    inrange (val r) (wd a) /\
+    forall j, 0 <= j < wd a -> Z.testbit (val r) j = Z.testbit (val a) (wd a - 1 - j).
+Proof.
+  intros [Hw Hr].
+  assert (Hidx : getitem_indices (wd a) (ISlice None None (Some (-1)))
+                 = Some (range_list (wd a - 1) (-1) (wd a))).
+  { apply getitem_indices_slice; [apply slice_reverse_indices; lia|apply range_list_nonempty; lia]. }
+  destruct (getitem_of_indices a _ _ Hidx) as [r [H1 [H2 [H3 H4]]]].
+  rewrite length_range_list, Z2Nat.id in H2 by lia.
+  exists r. split; [exact H1|]. split; [exact H2|]. rewrite H2 in H3, H4. split; [exact H3|].
+  intros j Hj. rewrite H4 by exact Hj. rewrite nth_range_list by lia.
+  rewrite Z2Nat.id by lia. f_equal. lia.
+Qed.
